@@ -181,6 +181,20 @@ Example C09_example_exported :
           = RIndexedExportedServiceList [("p1"%string, [SV 2 "web"]); ("p2"%string, [SV 3 "api"])] true.
 Proof. split; [repeat constructor; cbn; intuition discriminate | reflexivity]. Qed.
 
+(* the hypotheses of the any-order theorems are met by a visiting order different from the
+   stored one (here: reversed), and the defect repaired by d107a26 would show exactly here *)
+Example C09_example_any_order :
+  let m := [("p1"%string, [SV 1 "bad"; SV 2 "web"]); ("p2"%string, [SV 3 "api"]); ("p3"%string, [SV 4 "bad"])] in
+  let ord := rev m in
+  NoDup (map fst ord) /\ (forall kv, In kv ord <-> In kv m)
+  /\ exported_loop ex_az ord m false = ([("p1"%string, [SV 2 "web"]); ("p2"%string, [SV 3 "api"])], true)
+  /\ exported_loop ex_az m m false = exported_loop ex_az ord m false.
+Proof.
+  cbv zeta. split; [|split; [|split; reflexivity]].
+  - repeat constructor; cbn; intuition discriminate.
+  - intros kv. rewrite <- in_rev. reflexivity.
+Qed.
+
 (* adjacent removals, first and last element, nested lists *)
 Example C09_example_node_dump :
   filter_response ex_az
@@ -223,5 +237,6 @@ Print Assumptions C09_expired_while_cached.
 Print Assumptions C09_expired_not_yet_reaped.
 Print Assumptions C09_expired_cache_extended.
 Print Assumptions C09_example_exported.
+Print Assumptions C09_example_any_order.
 Print Assumptions C09_example_node_dump.
 Print Assumptions C09_example_expired.
